@@ -460,6 +460,11 @@ KNOWN_REGIONS = {
     "C20-win-ppid-bare": ("windows", "ppid", "ppid_map"),
     "C20-win-memory-maps-bare": ("windows", "memory_maps", "QueryDosDevice"),
 }
+# Solaris / AIX: wrap_exceptions has no zombie probe — "the pid still exists" is reported as ZombieProcess. The region
+# (Spec.knownZombieDeviation) and the one tolerated outcome come from the Lean driver (`spec.tolerated`); tolerated only
+# while the finding is listed as known; the implementation must still equal the MODEL there.
+ZOMBIE_FINDING = "C20-sunos-aix-exists-means-zombie"
+SAVED_GID_FINDING = "C20-bsd-saved-gid"
 
 
 def errno_name(n):
@@ -597,6 +602,9 @@ def judge_fault(c, impl, m, res):
         # of the bare OSError is a violation again)
         if (c["ident"], c["meth"], c["call"]) == (pl, me, ca) and fid in KNOWN_NOW:
             region = fid
+    if not in_spec and ZOMBIE_FINDING in KNOWN_NOW and any(same_outcome(impl, a) for a in m["spec"].get("tolerated", [])):
+        res.known_seen[ZOMBIE_FINDING] = res.known_seen.get(ZOMBIE_FINDING, 0) + 1
+        in_spec = True           # known deviation: not a new violation; the model comparison below still applies
     if not in_spec:
         if region and impl.get("k") == "raw" and impl.get("errno") == c["errno"] and impl.get("winerror") == c["winerror"]:
             res.known_seen[region] = res.known_seen.get(region, 0) + 1
@@ -1362,6 +1370,10 @@ def judge_front2(emu, c, obs, m, res):
     for which in ("spec", "model"):
         want = front2_expect(emu, c, m[which], which)
         g = got
+        if which == "spec" and c["fn"] == "ident" and g != want and ZOMBIE_FINDING in KNOWN_NOW \
+                and any(g == front2_expect(emu, c, t, which) for t in m.get("tolerated", [])):
+            res.known_seen[ZOMBIE_FINDING] = res.known_seen.get(ZOMBIE_FINDING, 0) + 1
+            continue
         if c["fn"] == "sigposix" and which == "spec" and isinstance(g.get("value"), list) and g["value"][0] == "exc":
             g = {"kind": "value", "value": ["exc", {k: v for k, v in g["value"][1].items() if k != "gone"}]}
         if c["fn"] == "sigwin" and isinstance(want, dict) and "o" in want and isinstance(g, dict) and "o" in g:
@@ -1645,6 +1657,20 @@ def replay(ctx, rp, res):
 def check_finding(ctx, fnd):
     w = fnd["witness"]
     emus = _emus(ctx.snap)
+    if fnd.get("id") == SAVED_GID_FINDING:
+        # witness = the parsed C call: the argument at the index of kinfo_proc_map['saved_gid'] is the saved-uid expression
+        try:
+            sm = dict(dict(T.slot_maps(emus["freebsd"]))["kinfo_proc_map"])
+            hit = 0
+            for (k, ident), _u, args in T.native_args(ctx.snap.pkg):
+                if k == "bsd.kinfo_proc_map" and args[sm["saved_gid"]] == args[sm["saved_uid"]]:
+                    hit += 1
+            return "reproduces" if hit else "gone"
+        except Exception:  # noqa: BLE001
+            return "gone"
+    if fnd.get("id") == ZOMBIE_FINDING:
+        impl = run_fault(emus[w["ident"]], w)
+        return "reproduces" if impl.get("k") == "zombie" else "gone"
     impl = run_fault(emus[w["ident"]], w)
     if impl.get("k") == "raw" and impl.get("errno") == w["errno"]:
         return "reproduces"
